@@ -16,12 +16,12 @@ HEARTS = ["♥", "❤", "💕", "💖"]
 
 def scripted(rng, with_read=None, mode=None):
     mode = mode or rng.choice(["mixed", "mixed", "same-heart"])
-    n_dec = rng.choice([3, 5, 8, 12])
+    n_dec = rng.choice([3, 5, 8, 12, 16])
     decisions = [rng.choice([0, 0, 5]) for _ in range(n_dec)]          # 0 -> left branch (0 < 3), 5 -> right (5 < 3 false)
     prog = []
     for d in reversed(decisions):                                         # first decision on top
         prog.append("형" + "." * d if d else "형")
-    m = rng.choice([2, 3, 4, 5])
+    m = rng.choice([2, 3, 4, 5, 6])
     with_read = rng.random() < 0.5 if with_read is None else with_read
     read_at = rng.randrange(m) if with_read else -1
     for i in range(m):
